@@ -24,7 +24,7 @@ EXHAUSTIVE = {
     "quick": ["forward: all 1,774,545 ticks", "usable-tick rounding: all ticks x 4 spacings"],
     "thorough": ["forward: all 1,774,545 ticks", "inverse: 3 sqrt prices per tick interval, all ticks", "usable-tick rounding: all ticks x 4 spacings"],
 }
-REQUIRED_LABELS = ["inv.negative", "inv.positive", "inv.between", "fwd.boundary"]
+REQUIRED_LABELS = ["inv.negative", "inv.positive", "inv.between", "fwd.boundary", "price.ptype.UnitDecimal", "price.ttype.int64"]
 
 DECIMALS = [6, 8, 18]
 SPACINGS = [1, 10, 60, 200]
@@ -152,9 +152,25 @@ def body_usable(case, ctx: Ctx):
 def body_price(case, ctx: Ctx):
     H, g = _impl()
     t, d0, d1, q = case["tick"], case["d0"], case["d1"], case["q"]
+    # argument types a caller really has in hand: ticks read from a data frame are numpy integers, prices handed out by
+    # the library (action records, position status) are UnitDecimal; the answers must not depend on that
+    ttype, ptype = case.get("ttype", "int"), case.get("ptype", "Decimal")
+    if ttype != "int":
+        import numpy as np
+
+        tn = {"int64": np.int64, "int32": np.int32}[ttype](t)
+        p0 = ctx.guarded("price.t2p", case, H.tick_to_base_unit_price, t, d0, d1, q)
+        pn = ctx.guarded("price.t2p", case, H.tick_to_base_unit_price, tn, d0, d1, q)
+        ctx.check(p0 == pn, "price.tick_type", lambda: f"tick_to_base_unit_price({t}) = {p0} but {pn} for the same tick as numpy {ttype}", case)
+        sn = ctx.guarded("price.t2s", case, H.tick_to_sqrt_price_x96, tn)
+        ctx.check(sn is not None and int(sn) == g(t), "price.tick_type", lambda: f"tick_to_sqrt_price_x96(numpy {ttype} {t}) = {sn}, protocol ratio {g(t)}", case)
     p = ctx.guarded("price.t2p", case, H.tick_to_base_unit_price, t, d0, d1, q)
     if p is None:
         return
+    if ptype == "UnitDecimal":
+        from demeter._typing import UnitDecimal
+
+        p = UnitDecimal(p, "quote/base")
     ctx.check(p > 0, "price.positive", f"price {p}", case)
     t2 = ctx.guarded("price.p2t", case, H.base_unit_price_to_tick, p, d0, d1, q)
     if t2 is None:
@@ -170,13 +186,15 @@ def body_price(case, ctx: Ctx):
     frac = Decimal(case["frac"]) / 1000
     p_next = H.tick_to_base_unit_price(t + 1, d0, d1, q) if t < T.MAX_TICK else p
     pm = p + (p_next - p) * frac
+    if ptype == "UnitDecimal":
+        pm = UnitDecimal(pm, "quote/base")
     tm = ctx.guarded("price.p2t", case, H.base_unit_price_to_tick, pm, d0, d1, q)
     if tm is not None:
         ctx.check(abs(tm - t) <= 1, "price.price_roundtrip", lambda: f"price {pm} (in tick interval {t}) -> tick {tm}", case)
         back = H.tick_to_base_unit_price(max(T.MIN_TICK, min(T.MAX_TICK, tm)), d0, d1, q)
         rel = back / pm if back > pm else pm / back
         ctx.check(rel <= Decimal("1.0001") * Decimal("1.0001"), "price.price_roundtrip", lambda: f"price {pm} -> tick {tm} -> price {back}", case)
-    ctx.case(case, True, labels=[f"price.q{int(q)}", "price.neg" if t < 0 else "price.pos"])
+    ctx.case(case, True, labels=[f"price.q{int(q)}", "price.neg" if t < 0 else "price.pos", f"price.ptype.{ptype}", f"price.ttype.{ttype}"])
 
 
 def _st_price():
@@ -186,7 +204,15 @@ def _st_price():
         st.sampled_from([T.MIN_TICK, T.MIN_TICK + 1, -1, 0, 1, T.MAX_TICK - 1, T.MAX_TICK]),
     )
     return st.fixed_dictionaries(
-        {"tick": tick, "d0": st.sampled_from(DECIMALS), "d1": st.sampled_from(DECIMALS), "q": st.booleans(), "frac": st.integers(1, 999)}
+        {
+            "tick": tick,
+            "d0": st.sampled_from(DECIMALS),
+            "d1": st.sampled_from(DECIMALS),
+            "q": st.booleans(),
+            "frac": st.integers(1, 999),
+            "ttype": st.sampled_from(["int", "int", "int64", "int32"]),
+            "ptype": st.sampled_from(["Decimal", "UnitDecimal"]),
+        }
     )
 
 
